@@ -74,7 +74,7 @@ fn replay_file(path: &str, tier: Tier, seed: u64, quiet: bool) -> i32 {
         }
         Some(Ok(p)) => {
             if !quiet {
-                println!("REPLAY property={} sub={} result=PASS class={}", prop, sub, p.class);
+                println!("REPLAY property={} sub={} result=PASS nt={} class={}", prop, sub, p.nt, p.class);
             }
             0
         }
